@@ -234,10 +234,14 @@ def run_case(c):
         if c.get('history') == 'edited':
             # logicle bins are asked for, then the events are changed in place (background subtraction), then asked for again: the
             # second answer describes the sample as it is now
-            for j in range(3):
-                d.hist_bins(j, None, 'logicle')
-                d.hist_bins(j, 7, 'logicle')
-            d.hist_bins(None, None, 'logicle')
+            try:
+                for j in range(3):
+                    d.hist_bins(j, None, 'logicle')
+                    d.hist_bins(j, 7, 'logicle')
+                d.hist_bins(None, None, 'logicle')
+            except Exception as ex:
+                res.violation('logicle:%s:edited:raises:%s' % (st, type(ex).__name__), 'hist_bins(%s, scale=\'logicle\') raised %s: %s' % (st, type(ex).__name__, ex), one)
+                return res
             shift = [2500.0, 3.0, 777.5]
             for j in range(3):
                 d[:, j] = np.asarray(d[:, j]) - shift[j]
